@@ -168,7 +168,7 @@ def gen_test(rng, module: str, n: int | None = None):
 
 
 def gen_suite(rng):
-    module = rng.choice(["c18stub", "c18stub", "c18pkg.sub"])
+    module = rng.choice(["c18stub", "c18stub", "c18pkg.sub", "c18all"])
     return {
         "module": module,
         "no_xfail": rng.random() < 0.35,
